@@ -165,8 +165,13 @@ isal_aes_xts_dec_128_expanded_key(const uint8_t *k2, const uint8_t *k1,
 #endif
 
 #ifdef FIPS_MODE
-        /* Compare entire expanded keys (16*11 bytes) */
-        if (memcmp(k1, k2, 16 * 11) == 0)
+        /*
+         * k1 is a decryption schedule and k2 an encryption schedule, so for equal keys the
+         * two do not match as a whole. The last round key of the decryption schedule and
+         * the first of the encryption schedule are the original 16-byte keys: compare
+         * those too.
+         */
+        if (memcmp(k1, k2, 16 * 11) == 0 || memcmp(k1 + 16 * 10, k2, 16) == 0)
                 return ISAL_CRYPTO_ERR_XTS_SAME_KEYS;
 
         if (isal_self_tests())
